@@ -25,9 +25,12 @@ def shards(tier):
         {"name": "mask.np.interp", "mode": "interp", "backend": "np", "fn": "masks", "Ns": [2, 3], "nop": 64},
         {"name": "mask.np.jit", "mode": "jit", "backend": "np", "fn": "masks", "Ns": [3] if q else [3, 4], "nop": 64},
         {"name": "rand.np.jit", "mode": "jit", "backend": "np", "fn": "rand", "n": 1500 if q else 60000},
+        {"name": "forms.np.jit", "mode": "jit", "backend": "np", "fn": "rand", "n": 500 if q else 15000, "forms": 1},
         {"name": "exh.torch", "mode": "jit", "backend": "torch", "fn": "exh", "Ns": [1, 2]},
         {"name": "mask.torch", "mode": "jit", "backend": "torch", "fn": "masks", "Ns": [2, 3], "nop": 32},
         {"name": "rand.torch", "mode": "jit", "backend": "torch", "fn": "rand", "n": 400 if q else 10000},
+        {"name": "big.np.jit", "mode": "jit", "backend": "np", "fn": "big", "n": 2 if q else 40},
+        {"name": "big.torch", "mode": "jit", "backend": "torch", "fn": "big", "n": 1 if q else 10},
     ]
     if not q:
         out.append({"name": "exh3.np.jit", "mode": "jit", "backend": "np", "fn": "exh", "Ns": [3]})
@@ -242,6 +245,42 @@ def run_rand(shard, rec, B):
         check_all_kinds(rec, B, G, PG, qubits, N, gs, ps, rng, dense=(N <= 3))
         if t % 4 == 0 and N <= 16:
             check_map_state(rec, B, G, PG, qubits, N, rng)
+    # receivers that the library itself hands out as views / derived arrays: slices of a list, the output of inverse()
+    for t in range(max(20, shard["n"] // 10)):
+        N = int(rng.integers(2, 7))
+        L = int(rng.integers(4, 10))
+        gs = gen.rand_list(rng, L, N)
+        ps = rng.integers(0, 4, L)
+        G, PG = gen.rand_nonid(rng, N), 2 * int(rng.integers(2))
+        base = B.PauliList(gs.copy(), ps.copy())
+        for nm, sl in (("[::2]", slice(None, None, 2)), ("[1:]", slice(1, None)), ("[::-1]", slice(None, None, -1)), ("[idx]", np.array([L - 1, 0, 2]))):
+            if B.name == "torch" and nm == "[::-1]":
+                continue
+            ok, V = rec.attempt("rot.derived", [nm, N], lambda: base[sl])
+            if not ok:
+                continue
+            vg, vp = B.gsps(V)
+            eg, ep = O.rot_image(G, PG, vg, vp)
+            ok, _ = rec.attempt("rot.derived", [nm, N], lambda: V.rotate_by(B.Pauli(G, PG)))
+            if ok:
+                lg, lp = B.gsps(V)
+                rec.check("rot.derived", np.array_equal(lg, eg) and np.array_equal(lp, ep), {"view": nm, "G": O.show(G, PG), "ops": [O.show(a, b) for a, b in zip(vg, vp)]}, True,
+                          expected=[O.show(a, b) for a, b in zip(eg, ep)], observed=[O.show(a, b) for a, b in zip(lg, lp)])
+        mg, mp = O.random_map(rng, N)
+        ok, Mi = rec.attempt("rot.derived", ["inverse", N], lambda: B.Map(mg.copy(), mp.copy()).inverse())
+        if ok:
+            vg, vp = B.gsps(Mi)
+            eg, ep = O.rot_image(G, PG, vg, vp)
+            ok, _ = rec.attempt("rot.derived", ["inverse", N], lambda: Mi.rotate_by(B.Pauli(G, PG)))
+            if ok:
+                lg, lp = B.gsps(Mi)
+                rec.check("rot.derived", np.array_equal(lg, eg) and np.array_equal(lp, ep), {"view": "inverse()", "G": O.show(G, PG), "map": [O.show(a, b) for a, b in zip(vg, vp)]}, True)
+            m2 = O.random_map(rng, N)
+            ok, _ = rec.attempt("rot.derived", ["inverse.transform", N], lambda: Mi.transform_by(B.Map(m2[0].copy(), m2[1].copy())))
+            if ok:
+                xg, xp = O.map_image_list(m2[0], m2[1], eg, ep)
+                lg, lp = B.gsps(Mi)
+                rec.check("rot.derived.transform", np.array_equal(lg, xg) and np.array_equal(lp, xp), {"view": "inverse() then rotate then transform", "N": N}, True)
     # rotation sequences undone in reverse order, on states and lists
     for t in range(max(20, shard["n"] // 30)):
         N = int(rng.integers(2, 9))
@@ -266,3 +305,21 @@ def run_rand(shard, rec, B):
             S.rotate_by(B.Pauli(G, (PG + 2) % 4), **kw)
         lg, lp, lr = B.state(S)
         rec.check("rot.undo", np.array_equal(lg, tg) and np.array_equal(lp, tp % 4) and lr == r, ["seq-undo", N, len(seq), t], True)
+
+
+def run_big(shard, rec, B):
+    """wide registers and long lists (thresholds of machine words / bytes); table oracle only."""
+    rng = gen.rng_for(rec)
+    for t in range(shard["n"]):
+        for N in gen.BIG_NS:
+            for masked in (False, True):
+                qubits = list(range(N)) if not masked else gen.rand_subset(rng, N, int(rng.integers(1, N)))
+                G = gen.sparse_string(rng, len(qubits)) if rng.integers(2) else gen.rand_nonid(rng, len(qubits))
+                PG = 2 * int(rng.integers(2))
+                L = [6, gen.BIG_LS[int(rng.integers(len(gen.BIG_LS)))]][int(rng.integers(2))]
+                gs = rng.integers(0, 2, (L, 2 * N))
+                gs[0] = gen.sparse_string(rng, N)
+                ps = rng.integers(0, 4, L)
+                check_all_kinds(rec, B, G, PG, qubits, N, gs, ps, rng, dense=False)
+            if N <= 70:
+                check_map_state(rec, B, gen.rand_nonid(rng, N), 2 * int(rng.integers(2)), list(range(N)), N, rng)
